@@ -111,6 +111,12 @@ func ChunkFromSave(c *save.Chunk) (*Chunk, error) {
 	}
 
 	bitsForHeight := bits.Len( /* chunk height in blocks */ uint(secs)*16 + 1)
+	wantLen := calcBitStorageSize(bitsForHeight, 16*16)
+	for _, name := range []string{"WORLD_SURFACE_WG", "WORLD_SURFACE", "OCEAN_FLOOR_WG", "OCEAN_FLOOR", "MOTION_BLOCKING", "MOTION_BLOCKING_NO_LEAVES"} {
+		if hm := c.Heightmaps[name]; hm != nil && len(hm) != wantLen {
+			return nil, fmt.Errorf("heightmap %s: %w", name, newBitStorageErr{ArrlLen: len(hm), WantLen: wantLen})
+		}
+	}
 	return &Chunk{
 		Sections: sections,
 		HeightMaps: HeightMaps{
